@@ -12,14 +12,14 @@ namespace model {
 
 ObsCounters& obs_counters()
 {
-   static ObsCounters c;
+   static thread_local ObsCounters c;
    return c;
 }
 
 namespace {
 using namespace ipr;
 
-volatile int g_sink;
+thread_local volatile int g_sink;
 
 inline void touch(const ipr::Node& n) { g_sink = int(n.category); }
 template<typename T> inline void touch_bytes(const T& t) { g_sink = *reinterpret_cast<const volatile unsigned char*>(&t); }
